@@ -20,7 +20,7 @@ import tempfile
 from hypothesis import strategies as st
 
 from ..runner import Violation
-from ..fasta_guard_c16 import TableGuard, molecule_digest, digest_diff, CODE_TABLE_NAMES
+from ..fasta_guard_c16 import limit_memory, TableGuard, molecule_digest, digest_diff, CODE_TABLE_NAMES
 
 PROPERTY = "C18"
 RULE = ("sequences: Hypothesis draws a type (aa/dna/rna), up to 4 blocks (motif over the 25/18 codes x repeat count; lengths "
@@ -438,6 +438,7 @@ def check_history(ctx, case):
 
 
 def task_sequences(ctx, n):
+    limit_memory()
     E = env()
     S = Session(E)
     sweep_codes(ctx)
@@ -471,6 +472,7 @@ def sweep_codes(ctx):
 
 
 def task_codes(ctx):
+    limit_memory()
     E = env()
     guard = TableGuard(E["fasta"], "c18")
     sweep_codes(ctx)
@@ -603,6 +605,7 @@ def _check_fasta(ctx, case, root, E, fa):
 
 
 def task_fasta(ctx, n):
+    limit_memory()
     E = env()
     S = Session(E)
     root = tempfile.mkdtemp(prefix="c18-")
